@@ -184,8 +184,12 @@ def run(job, mon):
                 ent.shape == bshape and
                 (np.abs(ent - ref_ent) <= TOL * (1 + np.abs(ref_ent))).all(),
                 lambda: wit(entropy=ent, ref=ref_ent))
-      # float32, as shipped without x64: the scale floor and log-prob must
-      # survive small min_std and very negative raw scale parameters
+      # float32, as shipped without x64: the scale (and its floor) must
+      # survive small min_std and very negative raw scale parameters, and the
+      # log-prob must stay finite. (The float32 log-prob *value* is not
+      # compared: x/scale - loc/scale cancels catastrophically for scales of
+      # 1e-7, 7% off on the unchanged tree, which the property does not rule
+      # out.)
       ms32 = float(rng.choice([1e-6, 1e-5, 1e-3]))
       with jax.enable_x64(False):
         d32 = distribution.NormalTanhDistribution(
@@ -205,9 +209,7 @@ def run(job, mon):
       mon.count('ev:float32_scale_and_log_prob', nelem - 1)
       mon.check('float32_scale_and_log_prob',
                 e32 <= 1e-4 and (sc32 >= ms32 * var_scale * (1 - 1e-5)).all()
-                and np.isfinite(lp32).all()
-                and (np.abs(lp32 - ref_lp32) <= 2e-2 * (1 + np.abs(ref_lp32))
-                     ).all(),
+                and np.isfinite(lp32).all(),
                 lambda: wit(min_std32=ms32, scale32=sc32, ref_scale=ref_sc32,
                             log_prob32=lp32, ref_log_prob=ref_lp32))
       y = rng.uniform(-0.999, 0.999, loc.shape)
